@@ -283,6 +283,13 @@ def scenarios():
             steps.append(call('c0', probe))
             scen('host-writes-into-resolved-Config/%s/%s' % (t, syn),
                  _w([dict(base, id='c0', holder='Config'), dict(base, id='c1', holder='dict'), dict(base, id='c2', holder='Config')]), steps)
+    # 4. unbounded growth with distinct inputs (census only, no references)
+    scen('distinct-inputs/markup-html', _w([{'id': 'c0', 'holder': 'dict', 'options': {'bem.enabled': True, 'comment.enabled': True}}]),
+         [{'op': 'soak_distinct', 'cfg': 'c0'}])
+    scen('distinct-inputs/markup-pug-held', _w([{'id': 'c0', 'holder': 'Config', 'syntax': 'pug', 'text': ['w'], 'snippets': dict(USER_SN)}]),
+         [{'op': 'soak_distinct', 'cfg': 'c0'}])
+    scen('distinct-inputs/stylesheet-cached', _w([{'id': 'c0', 'holder': 'dict', 'type': 'stylesheet', 'cache': 'k0', 'snippets': STYLE_SN}], caches=['k0']),
+         [{'op': 'soak_distinct', 'cfg': 'c0'}])
     return out
 
 
